@@ -147,8 +147,18 @@ func buildCtx(flags string) (context.Context, context.CancelFunc) {
 		ctx, c = context.WithCancel(ctx)
 		c()
 	}
+	if strings.Contains(flags, "p") {
+		ctx = pastDeadlineCtx{ctx}
+	}
 	return ctx, cancel
 }
+
+// pastDeadlineCtx is a request context at the instant its deadline has passed
+// on the wall clock while the runtime has not yet published it: Deadline() is
+// in the past, Err() is still nil, Done() not closed.
+type pastDeadlineCtx struct{ context.Context }
+
+func (pastDeadlineCtx) Deadline() (time.Time, bool) { return time.Now().Add(-time.Millisecond), true }
 
 var errOther = errors.New("dial tcp 192.0.2.1:53: connection refused")
 
@@ -853,7 +863,7 @@ func execWrite(a []string) vlib.Res {
 	ref.observe(refQ(k), cache.VerifC13QuestionHash(k))
 	err := cache.VerifC13WriteMsg(full, ctx, ch.Writer, req, k.Scope, cache.VerifC13Witness(wit), res)
 	or := ref.storeWrite(before, "write")
-	local := strings.ContainsAny(flags, "edbw") || (!strings.HasPrefix(mark, "else:") && localCause(mark))
+	local := strings.ContainsAny(flags, "edbwp") || (!strings.HasPrefix(mark, "else:") && localCause(mark))
 	failure := class == "servfail" || class == "refused"
 	h, ok := fc.Lookup(k)
 	if enabled {
@@ -1250,7 +1260,7 @@ func execCacheable(a []string) vlib.Res {
 		middleware.MarkRequestLocalFailureResponse(ctx, res, causeErr(mark))
 	}
 	got := cache.VerifC13Cacheable(ctx, res)
-	local := strings.ContainsAny(flags, "edbw") || (!strings.HasPrefix(mark, "else:") && localCause(mark))
+	local := strings.ContainsAny(flags, "edbwp") || (!strings.HasPrefix(mark, "else:") && localCause(mark))
 	or := "ok"
 	if got && local {
 		or = fmt.Sprintf("FAIL sig=cacheable/request-local-cause-admitted flags=%s mark=%s", flags, mark)
@@ -1270,7 +1280,7 @@ func execZoneRec(a []string) vlib.Res {
 	resolver.VerifC13RecordZoneFailure(zs, ctx, dns.Question{Name: "www.example.com.", Qtype: 1, Qclass: 1}, zone, causeErr(a[2]))
 	got := zs.recorded > 0
 	cause := strings.TrimPrefix(a[2], "w:")
-	local := strings.ContainsAny(a[0], "edb") || cause == "work" || cause == "attempt" || cause == "maxrec" || cause == "canceled" || cause == "deadline"
+	local := strings.ContainsAny(a[0], "edbp") || cause == "work" || cause == "attempt" || cause == "maxrec" || cause == "canceled" || cause == "deadline"
 	or := "ok"
 	if got && local {
 		or = fmt.Sprintf("FAIL sig=zonerec/request-local-cause-recorded flags=%s cause=%s", a[0], a[2])
@@ -1304,7 +1314,7 @@ func execHLE(a []string) vlib.Res {
 	got := zs.recorded > 0
 	or := "ok"
 	cause := strings.TrimPrefix(a[4], "w:")
-	local := strings.ContainsAny(a[0], "edb") || (cause != "other" && cause != "none" && cause != "probe" && cause != "shed")
+	local := strings.ContainsAny(a[0], "edbp") || (cause != "other" && cause != "none" && cause != "probe" && cause != "shed")
 	if got && local {
 		or = fmt.Sprintf("FAIL sig=hle/request-local-cause-recorded flags=%s cause=%s", a[0], a[4])
 	}
